@@ -311,19 +311,36 @@ Qed.
 
 Definition is_weak (o : opn) : bool := match o with Cew1 | Cew2 => true | _ => false end.
 
-(* I agrees with the std contract of kind k, for every semantics satisfying P and every (operation, spurious
-   choice) allowed by Q *)
-Definition agrees_on (Q : opn -> bool -> Prop) (P : sem -> Prop) (k : kind) (I : impl) : Prop :=
+(* I agrees with the std contract of kind k, for every semantics satisfying P and every call allowed by Q
+   (Q sees the operation, the spurious choice, T, the stored value and the first argument) *)
+Definition agrees_on (Q : opn -> bool -> cty -> Z -> Z -> Prop) (P : sem -> Prop) (k : kind) (I : impl) : Prop :=
   forall o vol f, std_of k o = Some f ->
   exists g, I o vol = Some g /\
-  forall S T spur v a1 a2, Q o spur -> P S -> ty_of k T = true ->
+  forall S T spur v a1 a2, Q o spur T v a1 -> P S -> ty_of k T = true ->
     ok T v = true -> ok (arg_ty T o) a1 = true -> ok T a2 = true ->
     g S T spur v a1 a2 = f S T spur v a1 a2.
 
 (* the Impl underneath the wrapper is never asked to fail spuriously: the wrapper decides that itself *)
-Definition impl_q (o : opn) (spur : bool) : Prop := is_weak o = true -> spur = false.
-Definition agrees0 := agrees_on impl_q.
-Definition agrees := agrees_on (fun _ _ => True).
+Definition impl_q (G : opn -> cty -> Z -> Z -> Prop) (o : opn) (spur : bool) (T : cty) (v a1 : Z) : Prop :=
+  (is_weak o = true -> spur = false) /\ G o T v a1.
+Definition no_guard (o : opn) (T : cty) (v a1 : Z) : Prop := True.
+Definition agrees0 := agrees_on (impl_q no_guard).
+Definition agrees := agrees_on (fun _ _ _ _ _ => True).
+
+(* the arithmetic an operation performs: (operator, is the operand the literal 1) *)
+Definition arith_of (o : opn) : option (bop * bool) :=
+  match o with
+  | FAdd | AddA => Some (BAdd, false) | FSub | SubA => Some (BSub, false)
+  | PreInc | PostInc => Some (BAdd, true) | PreDec | PostDec => Some (BSub, true)
+  | _ => None
+  end.
+
+(* the mathematical result of the operation fits the signed type (trivially true for the other types/operations) *)
+Definition no_signed_overflow (o : opn) (T : cty) (v a1 : Z) : Prop :=
+  match T, arith_of o with
+  | CInt w true, Some (op, one) => in_int w true (raw op v (if one then 1 else a1)) = true
+  | _, _ => True
+  end.
 
 Definition wraps (S : sem) : Prop := strict S = false.   (* the compiled code: signed overflow wraps *)
 Definition any_sem (S : sem) : Prop := True.             (* also the strict abstract machine *)
@@ -343,7 +360,8 @@ Ltac pdef :=
   unfold plain_defined;
   first [ left; assumption
         | right; right; right; left; reflexivity
-        | right; left; reflexivity ].
+        | right; left; reflexivity
+        | right; right; right; right; assumption ].
 
 (* one arithmetic step of the symbolic execution *)
 Ltac bstep :=
@@ -391,10 +409,20 @@ Ltac agree_int :=
   intros o vol f Hf; destruct o; cbn in Hf; try discriminate; injection Hf as <-; destruct vol;
   (eexists; split; [reflexivity|]); intros S T spur v a1 a2 HQ HS HT Hv H1 H2;
   (destruct T as [w sg| | |]; try discriminate); cbn in HT, Hv, H1, H2; unfold wraps, any_sem in HS;
-  try (rewrite (HQ eq_refl)); int_exec.
+  destruct HQ as [HQ HG]; try (rewrite (HQ eq_refl)); int_exec.
 
 Lemma fiber_int_agrees : agrees0 wraps KInt fiber_int.
 Proof. agree_int. Qed.
+
+(* the strict reading (signed overflow undefined), under the explicit guard "the result fits" *)
+Ltac agree_int_guarded :=
+  intros o vol f Hf; destruct o; cbn in Hf; try discriminate; injection Hf as <-; destruct vol;
+  (eexists; split; [reflexivity|]); intros S T spur v a1 a2 HQ HS HT Hv H1 H2;
+  (destruct T as [w sg| | |]; try discriminate); cbn in HT, Hv, H1, H2;
+  destruct HQ as [HQ HG]; destruct sg; cbn [no_signed_overflow arith_of] in HG; try (rewrite (HQ eq_refl)); int_exec.
+
+Lemma fiber_int_agrees_guarded : agrees_on (impl_q no_signed_overflow) any_sem KInt fiber_int.
+Proof. agree_int_guarded. Qed.
 
 (* the other kinds compute once T is a constructor *)
 Ltac conc_exec :=
@@ -404,7 +432,7 @@ Lemma fiber_bool_agrees P : agrees0 P KBool fiber_bool.
 Proof.
   intros o vol f Hf; destruct o; cbn in Hf; try discriminate; injection Hf as <-; destruct vol;
   (eexists; split; [reflexivity|]); intros S T spur v a1 a2 HQ HS HT Hv H1 H2;
-  (destruct T; try discriminate); cbn in Hv, H1, H2; try (rewrite (HQ eq_refl)); bools; subst; reflexivity.
+  (destruct T; try discriminate); cbn in Hv, H1, H2; destruct HQ as [HQ _]; try (rewrite (HQ eq_refl)); bools; subst; reflexivity.
 Qed.
 
 Lemma fiber_flag_agrees P : agrees0 P KFlag fiber_flag.
@@ -419,14 +447,14 @@ Proof.
   intros o vol f Hf; destruct o; cbn in Hf; try discriminate; injection Hf as <-; destruct vol;
   (eexists; split; [reflexivity|]); intros S T spur v a1 a2 HQ HS HT Hv H1 H2;
   (destruct T as [| |sz|]; try discriminate); cbn [ok arg_ty] in Hv, H1, H2; unfold ptrdiff_t in H1; cbn [ok] in H1;
-  try (rewrite (HQ eq_refl)); conc_exec.
+  destruct HQ as [HQ _]; try (rewrite (HQ eq_refl)); conc_exec.
 Qed.
 
 Lemma fiber_flt_agrees P : agrees0 P KFlt fiber_flt.
 Proof.
   intros o vol f Hf; destruct o; cbn in Hf; try discriminate; injection Hf as <-; destruct vol;
   (eexists; split; [reflexivity|]); intros S T spur v a1 a2 HQ HS HT Hv H1 H2;
-  (destruct T; try discriminate); try (rewrite (HQ eq_refl)); conc_exec.
+  (destruct T; try discriminate); destruct HQ as [HQ _]; try (rewrite (HQ eq_refl)); conc_exec.
 Qed.
 
 (* ------------------------------------------------------------------------------------------------ 3. the wrapper *)
@@ -435,7 +463,8 @@ Lemma in_int_0 w sg : int_width w = true -> in_int w sg 0 = true.
 Proof. intros Hw. widths Hw; destruct sg; reflexivity. Qed.
 
 Ltac side :=
-  first [ assumption | reflexivity | (unfold impl_q; cbn; intros; first [discriminate | reflexivity])
+  first [ assumption | reflexivity
+        | (unfold impl_q; split; [cbn; intros; first [discriminate | reflexivity] | first [assumption | (match goal with HL : forall T v a, _ Load T v a |- _ => apply HL end) | exact I]])
         | (apply in_int_0; assumption) | exact I ].
 
 (* a call of Impl::op: use that Impl agrees with std *)
@@ -454,39 +483,335 @@ Ltac spur_split :=
 
 Ltac wrap_exec HI := expose; norms; try spur_split; repeat (istep HI; norms); splits; simp; norms; try reflexivity; try congruence.
 
-Lemma wrapped_int_agrees P I : agrees0 P KInt I -> agrees P KInt (wrapped_int I).
+Lemma wrapped_int_agrees (G : opn -> cty -> Z -> Z -> Prop) P I : (forall T v a, G Load T v a) ->
+  agrees_on (impl_q G) P KInt I -> agrees_on (fun o _ T v a => G o T v a) P KInt (wrapped_int I).
 Proof.
-  intros HI o vol f Hf; destruct o; cbn in Hf; try discriminate; injection Hf as <-; destruct vol;
-  (eexists; split; [reflexivity|]); intros S T spur v a1 a2 _ HS HT Hv H1 H2;
+  intros HGL HI o vol f Hf; destruct o; cbn in Hf; try discriminate; injection Hf as <-; destruct vol;
+  (eexists; split; [reflexivity|]); intros S T spur v a1 a2 HG HS HT Hv H1 H2;
   (destruct T as [w sg| | |]; try discriminate); cbn [ok arg_ty] in Hv, H1, H2; assert (Hw : int_width w = true) by exact HT;
   wrap_exec HI.
 Qed.
 
-Lemma wrapped_bool_agrees P I : agrees0 P KBool I -> agrees P KBool (wrapped_bool I).
+Lemma wrapped_bool_agrees (G : opn -> cty -> Z -> Z -> Prop) P I : (forall T v a, G Load T v a) ->
+  agrees_on (impl_q G) P KBool I -> agrees_on (fun o _ T v a => G o T v a) P KBool (wrapped_bool I).
 Proof.
-  intros HI o vol f Hf; destruct o; cbn in Hf; try discriminate; injection Hf as <-; destruct vol;
-  (eexists; split; [reflexivity|]); intros S T spur v a1 a2 _ HS HT Hv H1 H2;
+  intros HGL HI o vol f Hf; destruct o; cbn in Hf; try discriminate; injection Hf as <-; destruct vol;
+  (eexists; split; [reflexivity|]); intros S T spur v a1 a2 HG HS HT Hv H1 H2;
   (destruct T; try discriminate); cbn in Hv, H1, H2; bools; subst; wrap_exec HI.
 Qed.
 
-Lemma wrapped_flag_agrees P I : agrees0 P KFlag I -> agrees P KFlag (wrapped_flag I).
+Lemma wrapped_flag_agrees (G : opn -> cty -> Z -> Z -> Prop) P I : (forall T v a, G Load T v a) ->
+  agrees_on (impl_q G) P KFlag I -> agrees_on (fun o _ T v a => G o T v a) P KFlag (wrapped_flag I).
 Proof.
-  intros HI o vol f Hf; destruct o; cbn in Hf; try discriminate; injection Hf as <-; destruct vol;
-  (eexists; split; [reflexivity|]); intros S T spur v a1 a2 _ HS HT Hv H1 H2;
+  intros HGL HI o vol f Hf; destruct o; cbn in Hf; try discriminate; injection Hf as <-; destruct vol;
+  (eexists; split; [reflexivity|]); intros S T spur v a1 a2 HG HS HT Hv H1 H2;
   (destruct T; try discriminate); cbn in Hv, H1, H2; bools; subst; wrap_exec HI.
 Qed.
 
-Lemma wrapped_ptr_agrees P I : agrees0 P KPtr I -> agrees P KPtr (wrapped_ptr I).
+Lemma wrapped_ptr_agrees (G : opn -> cty -> Z -> Z -> Prop) P I : (forall T v a, G Load T v a) ->
+  agrees_on (impl_q G) P KPtr I -> agrees_on (fun o _ T v a => G o T v a) P KPtr (wrapped_ptr I).
 Proof.
-  intros HI o vol f Hf; destruct o; cbn in Hf; try discriminate; injection Hf as <-; destruct vol;
-  (eexists; split; [reflexivity|]); intros S T spur v a1 a2 _ HS HT Hv H1 H2;
+  intros HGL HI o vol f Hf; destruct o; cbn in Hf; try discriminate; injection Hf as <-; destruct vol;
+  (eexists; split; [reflexivity|]); intros S T spur v a1 a2 HG HS HT Hv H1 H2;
   (destruct T as [| |sz|]; try discriminate); cbn [ok arg_ty] in Hv, H1, H2; unfold ptrdiff_t in H1; cbn [ok] in H1;
   wrap_exec HI.
 Qed.
 
-Lemma wrapped_flt_agrees P I : agrees0 P KFlt I -> agrees P KFlt (wrapped_flt I).
+Lemma wrapped_flt_agrees (G : opn -> cty -> Z -> Z -> Prop) P I : (forall T v a, G Load T v a) ->
+  agrees_on (impl_q G) P KFlt I -> agrees_on (fun o _ T v a => G o T v a) P KFlt (wrapped_flt I).
 Proof.
-  intros HI o vol f Hf; destruct o; cbn in Hf; try discriminate; injection Hf as <-; destruct vol;
-  (eexists; split; [reflexivity|]); intros S T spur v a1 a2 _ HS HT Hv H1 H2;
+  intros HGL HI o vol f Hf; destruct o; cbn in Hf; try discriminate; injection Hf as <-; destruct vol;
+  (eexists; split; [reflexivity|]); intros S T spur v a1 a2 HG HS HT Hv H1 H2;
   (destruct T; try discriminate); wrap_exec HI.
+Qed.
+
+(* ------------------------------------------------------------------------------------------------ 4. backends *)
+
+Lemma std_impl_agrees0 P k : agrees0 P k (std_impl (std_of k)).
+Proof. intros o vol f Hf. exists f. split; [exact Hf | reflexivity]. Qed.
+
+
+Lemma agrees_weaken (P P' : sem -> Prop) Q k I : (forall S, P' S -> P S) -> agrees_on Q P k I -> agrees_on Q P' k I.
+Proof.
+  intros HP HA o vol f Hf. destruct (HA o vol f Hf) as (g & Hg & Hgf). exists g. split; auto.
+Qed.
+
+Lemma wrapped_agrees_on (G : opn -> cty -> Z -> Z -> Prop) P k I : (forall T v a, G Load T v a) ->
+  agrees_on (impl_q G) P k I -> agrees_on (fun o _ T v a => G o T v a) P k (wrapped_of k I).
+Proof.
+  destruct k; cbn [wrapped_of].
+  - apply wrapped_int_agrees.
+  - apply wrapped_bool_agrees.
+  - apply wrapped_ptr_agrees.
+  - apply wrapped_flt_agrees.
+  - apply wrapped_flag_agrees.
+Qed.
+
+Lemma wrapped_agrees P k I : agrees0 P k I -> agrees P k (wrapped_of k I).
+Proof. intros H. apply (wrapped_agrees_on no_guard P k I); [intros; exact Logic.I | exact H]. Qed.
+
+Lemma fiber_agrees0 k : agrees0 wraps k (fiber_of k).
+Proof.
+  destruct k; cbn [fiber_of].
+  - apply fiber_int_agrees.
+  - apply fiber_bool_agrees.
+  - apply fiber_ptr_agrees.
+  - apply fiber_flt_agrees.
+  - apply fiber_flag_agrees.
+Qed.
+
+(* FIBER backend: wrapper over the fiber re-implementation *)
+Lemma fiber_backend_agrees k : agrees wraps k (impl_of BFiber k).
+Proof. apply wrapped_agrees, fiber_agrees0. Qed.
+
+Lemma no_overflow_load T v a : no_signed_overflow Load T v a.
+Proof. destruct T as [w [|] | | |]; exact I. Qed.
+
+Lemma fiber_backend_int_guarded :
+  agrees_on (fun o _ T v a => no_signed_overflow o T v a) any_sem KInt (impl_of BFiber KInt).
+Proof. apply (wrapped_agrees_on no_signed_overflow), fiber_int_agrees_guarded. exact no_overflow_load. Qed.
+
+(* THREAD backend: wrapper over std::atomic itself *)
+Lemma thread_backend_agrees k : agrees any_sem k (impl_of BThread k).
+Proof. apply wrapped_agrees, std_impl_agrees0. Qed.
+
+(* ---- the std operations are total and keep the stored value representable *)
+Lemma std_total k o f S T spur v a1 a2 :
+  std_of k o = Some f -> ty_of k T = true -> ok T v = true -> ok (arg_ty T o) a1 = true -> ok T a2 = true ->
+  exists r, f S T spur v a1 a2 = Some r /\ ok T (r_st r) = true.
+Proof.
+  intros Hf HT Hv H1 H2.
+  destruct k; destruct o; cbn in Hf; try discriminate; injection Hf as <-;
+    (destruct T as [w sg | | sz |]; try discriminate); cbn [ty_of] in HT; std_unfold; cbn [arg_ty] in H1;
+    try destruct spur; try (destruct (v =? a1));
+    (eexists; split; [reflexivity|]); cbn [r_st fst snd ok]; auto;
+    try (apply norm_in; assumption); try (apply (norm_in 64 false); reflexivity).
+Qed.
+
+(* ---- sequences *)
+Definition call_ok (k : kind) (T : cty) (c : call) : Prop :=
+  match c with
+  | Call o vol spur a1 a2 => (exists f, std_of k o = Some f) /\ ok (arg_ty T o) a1 = true /\ ok T a2 = true
+  | Fence _ => True
+  end.
+
+Lemma fiber_fences sg v : fence_of BFiber sg v = v.
+Proof. destruct sg; reflexivity. Qed.
+
+Lemma run_agrees P k (I : impl) (fence : bool -> Z -> Z) :
+  agrees P k I -> (forall sg v, fence sg v = v) ->
+  forall S T cs v0, P S -> ty_of k T = true -> ok T v0 = true -> Forall (call_ok k T) cs ->
+  run I fence S T cs v0 = run (std_impl (std_of k)) (fun _ => std_fence) S T cs v0.
+Proof.
+  intros HA HF S T cs. induction cs as [|c cs IH]; intros v0 HS HT Hv Hcs; [reflexivity|].
+  inversion Hcs as [|? ? Hc Hr]; subst. cbn [run].
+  destruct c as [o vol spur a1 a2 | sg]; cbn [step].
+  - destruct Hc as ((f & Hf) & H1 & H2).
+    destruct (HA o vol f Hf) as (g & Hg & Hgf).
+    unfold icall. rewrite Hg. unfold std_impl at 1. rewrite Hf.
+    rewrite Hgf by auto.
+    destruct (std_total k o f S T spur v0 a1 a2 Hf HT Hv H1 H2) as (r & Hr' & Hok).
+    rewrite Hr'. rewrite IH by auto. reflexivity.
+  - rewrite HF. unfold std_fence. cbn [r_st fst]. rewrite IH by auto. reflexivity.
+Qed.
+
+(* ---- compare_exchange: spurious failure, strong never spurious *)
+Lemma weak_spurious P k I o vol g S T v e d :
+  agrees P k I -> is_weak o = true -> (exists f, std_of k o = Some f) -> I o vol = Some g ->
+  P S -> ty_of k T = true -> ok T v = true -> ok T e = true -> ok T d = true ->
+  g S T true v e d = Some (v, 0, v).
+Proof.
+  intros HA Hw (f & Hf) Hg HS HT Hv He Hd.
+  destruct (HA o vol f Hf) as (g' & Hg' & Hgf). rewrite Hg in Hg'. injection Hg' as <-.
+  rewrite Hgf; auto.
+  - destruct k; destruct o; try discriminate; cbn in Hf; injection Hf as <-; reflexivity.
+  - destruct T, o; try discriminate; assumption.
+Qed.
+
+Definition is_strong (o : opn) : bool := match o with Ces1 | Ces2 => true | _ => false end.
+
+Lemma strong_never_spurious P k I o vol g S T spur v e d :
+  agrees P k I -> is_strong o = true -> (exists f, std_of k o = Some f) -> I o vol = Some g ->
+  P S -> ty_of k T = true -> ok T v = true -> ok T e = true -> ok T d = true ->
+  g S T spur v e d = if v =? e then Some (d, 1, e) else Some (v, 0, v).
+Proof.
+  intros HA Hw (f & Hf) Hg HS HT Hv He Hd.
+  destruct (HA o vol f Hf) as (g' & Hg' & Hgf). rewrite Hg in Hg'. injection Hg' as <-.
+  rewrite Hgf; auto.
+  - destruct k; destruct o; try discriminate; cbn in Hf; injection Hf as <-; reflexivity.
+  - destruct T, o; try discriminate; assumption.
+Qed.
+
+Lemma weak_not_spurious P k I o vol g S T v e d :
+  agrees P k I -> is_weak o = true -> (exists f, std_of k o = Some f) -> I o vol = Some g ->
+  P S -> ty_of k T = true -> ok T v = true -> ok T e = true -> ok T d = true ->
+  g S T false v e d = if v =? e then Some (d, 1, e) else Some (v, 0, v).
+Proof.
+  intros HA Hw (f & Hf) Hg HS HT Hv He Hd.
+  destruct (HA o vol f Hf) as (g' & Hg' & Hgf). rewrite Hg in Hg'. injection Hg' as <-.
+  rewrite Hgf; auto.
+  - destruct k; destruct o; try discriminate; cbn in Hf; injection Hf as <-; reflexivity.
+  - destruct T, o; try discriminate; assumption.
+Qed.
+
+(* ---- the value constructor *)
+Lemma init_stores k S T spur v a1 a2 : ty_of k T = true -> ok T a1 = true -> fiber_init S T spur v a1 a2 = Some (a1, 0, a1).
+Proof.
+  intros HT H1. unfold fiber_init. expose.
+  destruct k, T as [w sg | | sz |]; try discriminate; cbn [ty_of] in HT; cbn [ok] in H1; cbn [cast fst snd]; norms; try reflexivity;
+    cbn in H1; bools; subst; reflexivity.
+Qed.
+
+(* ---- memory orders handed to the implementation *)
+Definition all_mo : list mo := [Rlx; Csm; Acq; Rel; AcqRel; SeqCst].
+Definition mo_lists : list (list mo) :=
+  [[]] ++ map (fun m => [m]) all_mo ++ flat_map (fun s => map (fun f => [s; f]) all_mo) all_mo.
+
+Definition orders_entry_ok (e : opn * bool * (list mo -> option (list (opn * list mo)))) : bool :=
+  let '(o, vol, f) := e in
+  forallb (fun ms => if std_orders_ok o ms
+                     then match f ms with Some cs => forallb call_orders_ok cs | None => false end
+                     else true) mo_lists.
+
+Lemma orders_in_lists o ms : std_orders_ok o ms = true -> In ms mo_lists.
+Proof.
+  unfold std_orders_ok, call_orders_ok. intros H.
+  destruct ms as [|m1 [|m2 [|m3 ms]]].
+  - left. reflexivity.
+  - destruct m1; cbn; tauto.
+  - destruct m1, m2; cbn; tauto.
+  - destruct o; discriminate.
+Qed.
+
+Lemma wrap_orders_checked : forallb orders_entry_ok wrap_orders = true.
+Proof. vm_compute. reflexivity. Qed.
+
+Lemma wrap_orders_valid o vol f ms :
+  In (o, vol, f) wrap_orders -> std_orders_ok o ms = true ->
+  exists cs, f ms = Some cs /\ forallb call_orders_ok cs = true.
+Proof.
+  intros Hin Hok.
+  pose proof (proj1 (forallb_forall _ _) wrap_orders_checked _ Hin) as H. cbn [orders_entry_ok] in H.
+  pose proof (proj1 (forallb_forall _ _) H ms (orders_in_lists o ms Hok)) as H'. cbn beta in H'.
+  rewrite Hok in H'. destruct (f ms) as [cs|]; [|discriminate]. exists cs. auto.
+Qed.
+
+(* every operation of every wrapper overload set has its entry *)
+Definition has_entry (o : opn) (vol : bool) : bool :=
+  existsb (fun e => let '(o', vol', _) := e in
+     (if vol then vol' else negb vol') &&
+     match o, o' with
+     | Assign, Assign | Store, Store | Load, Load | Conv, Conv | Xchg, Xchg | Cew2, Cew2 | Cew1, Cew1 | Ces2, Ces2
+     | Ces1, Ces1 | FAdd, FAdd | FSub, FSub | AddA, AddA | SubA, SubA | FAnd, FAnd | FOr, FOr | FXor, FXor
+     | PreInc, PreInc | PostInc, PostInc | PreDec, PreDec | PostDec, PostDec | AndA, AndA | OrA, OrA | XorA, XorA
+     | Clear, Clear | TAS, TAS | Test, Test => true
+     | _, _ => false
+     end) wrap_orders.
+
+Definition all_opn : list opn :=
+  [Assign; Store; Load; Conv; Xchg; Cew2; Cew1; Ces2; Ces1; FAdd; FSub; AddA; SubA; FAnd; FOr; FXor;
+   PreInc; PostInc; PreDec; PostDec; AndA; OrA; XorA; Clear; TAS; Test].
+
+Lemma wrap_orders_complete :
+  forallb (fun k => forallb (fun o => forallb (fun vol =>
+     match wrapped_of k (fun _ _ => None) o vol with Some _ => has_entry o vol | None => true end) [false; true]) all_opn)
+     [KInt; KBool; KPtr; KFlt; KFlag] = true.
+Proof. vm_compute. reflexivity. Qed.
+
+(* ------------------------------------------------------------------------------------------------ 5. statements *)
+(* the results above with [agrees] unfolded, in the form Properties_C19.v states them *)
+
+Definition op_agrees (P : sem -> Prop) (G : opn -> cty -> Z -> Z -> Prop) (k : kind) (I : impl) : Prop :=
+  forall o vol f, std_of k o = Some f ->
+  exists g, I o vol = Some g /\
+  forall S T spur v a1 a2, P S -> G o T v a1 -> ty_of k T = true ->
+    ok T v = true -> ok (arg_ty T o) a1 = true -> ok T a2 = true ->
+    g S T spur v a1 a2 = f S T spur v a1 a2.
+
+Lemma op_agrees_of P (G : opn -> cty -> Z -> Z -> Prop) k I :
+  agrees_on (fun o _ T v a => G o T v a) P k I -> op_agrees P G k I.
+Proof.
+  intros HA o vol f Hf. destruct (HA o vol f Hf) as (g & Hg & Hgf). exists g. split; [exact Hg|].
+  intros. apply Hgf; auto.
+Qed.
+
+Lemma fiber_operations k : op_agrees (fun S => strict S = false) no_guard k (impl_of BFiber k).
+Proof. apply op_agrees_of. exact (fiber_backend_agrees k). Qed.
+
+Lemma thread_operations k : op_agrees (fun _ => True) no_guard k (impl_of BThread k).
+Proof. apply op_agrees_of. exact (thread_backend_agrees k). Qed.
+
+Lemma fiber_int_strict_guarded : op_agrees (fun _ => True) no_signed_overflow KInt (impl_of BFiber KInt).
+Proof. apply op_agrees_of. exact fiber_backend_int_guarded. Qed.
+
+Lemma fiber_sequences k S T cs v0 :
+  strict S = false -> ty_of k T = true -> ok T v0 = true -> Forall (call_ok k T) cs ->
+  run_backend BFiber k S T cs v0 = run_backend BStd k S T cs v0.
+Proof.
+  intros. unfold run_backend.
+  etransitivity; [apply (run_agrees wraps k _ (fence_of BFiber) (fiber_backend_agrees k) fiber_fences S T cs v0); auto|].
+  reflexivity.
+Qed.
+
+Lemma thread_sequences k S T cs v0 :
+  ty_of k T = true -> ok T v0 = true -> Forall (call_ok k T) cs ->
+  run_backend BThread k S T cs v0 = run_backend BStd k S T cs v0.
+Proof.
+  intros. unfold run_backend.
+  etransitivity; [apply (run_agrees any_sem k _ (fence_of BThread) (thread_backend_agrees k) (fun _ _ => eq_refl) S T cs v0); auto|].
+  - exact Logic.I.
+  - reflexivity.
+Qed.
+
+(* the reference run itself never gets stuck and stays representable: the equalities above are not vacuous *)
+Lemma std_run_total k S T cs v0 :
+  ty_of k T = true -> ok T v0 = true -> Forall (call_ok k T) cs ->
+  exists l, run_backend BStd k S T cs v0 = Some l /\ length l = length cs.
+Proof.
+  intros HT. revert v0. induction cs as [|c cs IH]; intros v0 Hv Hcs.
+  - exists []. split; reflexivity.
+  - inversion Hcs as [|? ? Hc Hr]; subst. unfold run_backend in *. cbn [run].
+    destruct c as [o vol spur a1 a2 | sg]; cbn [step].
+    + destruct Hc as ((f & Hf) & H1 & H2).
+      destruct (std_total k o f S T spur v0 a1 a2 Hf HT Hv H1 H2) as (r & Hr' & Hok).
+      unfold icall. cbn [impl_of]. unfold std_impl at 1. rewrite Hf, Hr'.
+      destruct (IH (r_st r) Hok Hr) as (l & Hl & Hlen). cbn [impl_of] in Hl. rewrite Hl.
+      exists (r :: l). split; [reflexivity | cbn; congruence].
+    + cbn [fence_of]. unfold std_fence. cbn [r_st fst].
+      destruct (IH v0 Hv Hr) as (l & Hl & Hlen). rewrite Hl. eexists. split; [reflexivity | cbn; congruence].
+Qed.
+
+Definition has_cas (k : kind) : bool := match k with KFlag => false | _ => true end.
+
+Lemma cas_in_std k o : has_cas k = true -> (is_weak o = true \/ is_strong o = true) -> exists f, std_of k o = Some f.
+Proof. intros Hk [H | H]; destruct k, o; try discriminate; eexists; reflexivity. Qed.
+
+Lemma backend_weak_spurious b k o vol g S T v e d :
+  b <> BStd -> has_cas k = true -> is_weak o = true -> impl_of b k o vol = Some g ->
+  strict S = false -> ty_of k T = true -> ok T v = true -> ok T e = true -> ok T d = true ->
+  g S T true v e d = Some (v, 0, v).
+Proof.
+  intros Hb Hk Hw Hg HS HT Hv He Hd. destruct b; try congruence.
+  - eapply (weak_spurious wraps k); eauto using fiber_backend_agrees, cas_in_std.
+  - eapply (weak_spurious any_sem k); eauto using thread_backend_agrees, cas_in_std. exact Logic.I.
+Qed.
+
+Lemma backend_weak_not_spurious b k o vol g S T v e d :
+  b <> BStd -> has_cas k = true -> is_weak o = true -> impl_of b k o vol = Some g ->
+  strict S = false -> ty_of k T = true -> ok T v = true -> ok T e = true -> ok T d = true ->
+  g S T false v e d = if v =? e then Some (d, 1, e) else Some (v, 0, v).
+Proof.
+  intros Hb Hk Hw Hg HS HT Hv He Hd. destruct b; try congruence.
+  - eapply (weak_not_spurious wraps k); eauto using fiber_backend_agrees, cas_in_std.
+  - eapply (weak_not_spurious any_sem k); eauto using thread_backend_agrees, cas_in_std. exact Logic.I.
+Qed.
+
+Lemma backend_strong_never_spurious b k o vol g S T spur v e d :
+  b <> BStd -> has_cas k = true -> is_strong o = true -> impl_of b k o vol = Some g ->
+  strict S = false -> ty_of k T = true -> ok T v = true -> ok T e = true -> ok T d = true ->
+  g S T spur v e d = if v =? e then Some (d, 1, e) else Some (v, 0, v).
+Proof.
+  intros Hb Hk Hw Hg HS HT Hv He Hd. destruct b; try congruence.
+  - eapply (strong_never_spurious wraps k); eauto using fiber_backend_agrees, cas_in_std.
+  - eapply (strong_never_spurious any_sem k); eauto using thread_backend_agrees, cas_in_std. exact Logic.I.
 Qed.
